@@ -272,6 +272,9 @@ def _generate_mask(vertices, x, y):
 
     xxyy = truenp.stack((xx, yy), axis=2)
     # use delaunay to fill from the vertices and produce a mask
+    # the centroid is inside the convex polygon; with it, a triangle has the
+    # four points qhull needs to start from
+    vertices = truenp.vstack((vertices, vertices.mean(axis=0)))
     triangles = spatial.Delaunay(vertices, qhull_options='QJ Qf')
     mask = ~(triangles.find_simplex(xxyy) < 0)
     return mask
